@@ -21,7 +21,7 @@ let props : (string * prop) list = [
   "C02", { tag = "wops"; check = P_c02.check_wops; cross_header = ""; cross_footer = ""; nontrivial = P_c02.nontrivial_wops };
   "C15", sess_prop P_sess.check_C15 P_sess.nontrivial;
   "C09", sess_prop P_sess.check_C09 P_sess.nontrivial;
-  "C14", { tag = "c14"; check = P_c14.check; cross_header = ""; cross_footer = ""; nontrivial = P_c14.nontrivial };
+  "C14", { tag = "c14"; check = P_c14.check; cross_header = P_c14.cross_header; cross_footer = P_c14.cross_footer; nontrivial = P_c14.nontrivial };
   "C03", sess_prop P_sess.check_C03 P_sess.nontrivial;
   "C03", { tag = "rd"; check = P_rd.check; cross_header = ""; cross_footer = ""; nontrivial = P_rd.nontrivial };
   "C18", sess_prop P_sess.check_C18 P_sess.nontrivial;
@@ -77,6 +77,8 @@ let () =
   let cs = Array.of_list (List.rev !crosses) in
   let n = Array.length cs in
   let oc = open_out crossf in
+  let p = (try snd (List.find (fun (_, q) -> q.cross_header <> "") ps) with Not_found -> p) in
+  if p.cross_header = "" then begin output_string oc "Definition bad : list nat := nil.\nPrint bad.\n"; close_out oc; exit 0 end;
   output_string oc p.cross_header;
   let k = min nsample n in
   for i = 0 to k - 1 do
